@@ -367,7 +367,15 @@ func (s *StateMachine) SlashValidator(validator *Validator, chainId, percent uin
 		return err
 	}
 	// update the committees based on the new stake amount
-	if err = s.UpdateCommittees(addr, validator, stakeAfterSlash, newCommittees); err != nil {
+	if validator.Delegate {
+		// a delegate is tracked by the delegate supply and the delegate lists (not by the committee member lists)
+		if err = s.SubFromDelegateSupply(slashAmount); err != nil {
+			return err
+		}
+		if err = s.UpdateDelegations(addr, validator, stakeAfterSlash, newCommittees); err != nil {
+			return err
+		}
+	} else if err = s.UpdateCommittees(addr, validator, stakeAfterSlash, newCommittees); err != nil {
 		return err
 	}
 	// set the committees in the validator structure
